@@ -19,6 +19,7 @@ from ufl.classes import (
     Index,
     Label,
     MultiIndex,
+    Zero,
 )
 from ufl.core.base_form_operator import BaseFormOperator
 from ufl.core.ufl_type import UFLObject
@@ -59,6 +60,17 @@ def compute_terminal_hashdata(expressions, renumbering):
                 # Indices need a canonical numbering for a stable
                 # signature, thus this algorithm
                 data = compute_multiindex_hashdata(expr, index_numbering)
+
+            elif isinstance(expr, Zero) and expr.ufl_free_indices:
+                # The free indices of a zero need the same canonical
+                # numbering as the indices of multiindices
+                fi = MultiIndex(tuple(Index(count) for count in expr.ufl_free_indices))
+                data = (
+                    "Zero",
+                    expr.ufl_shape,
+                    compute_multiindex_hashdata(fi, index_numbering),
+                    expr.ufl_index_dimensions,
+                )
 
             elif isinstance(expr, ConstantValue):
                 data = expr._ufl_signature_data_(renumbering)
